@@ -42,6 +42,7 @@ structure BSt where
   hw : Nat → Option B := fun _ => none        -- what the platform has received
   last : Nat → Option (B × Nat) := fun _ => none   -- `last_state`
   maxFade : Nat := 0                          -- `get_max_fade_ms()` of the lights (0: the hardware cannot fade)
+  cached : Nat → Bool := fun _ => false       -- `_last_brightness` is set: the light answered "done" since its last `set_fade`
   maxBatch : Nat := 2                         -- `max_batch_size`
   tol : Nat := 1                              -- `max_fade_tolerance`
   accFade : Nat := 0                          -- `common_fade_ms` of the list being collected
@@ -74,7 +75,14 @@ def fadeAt (f : Fade) (now m : Nat) : Nat :=
 /-- `set_fade` on light `l` = `mark_dirty` + remember the fade -/
 def mark (s : BSt) (l : Nat) (f : Fade) : BSt :=
   { s with fade := upd s.fade l f, ver := upd s.ver l (s.ver l + 1), dirty := insertSet l s.dirty, changed := true,
-           sched := s.sched.filter (fun e => decide (e.2 ≠ l)) }
+           sched := s.sched.filter (fun e => decide (e.2 ≠ l)), cached := upd s.cached l false }
+
+/-- the fade duration `get_fade_and_brightness` answers for light `l` as the code is: once a light has answered "done" its
+target is cached (`_last_brightness`) and a repeated call answers `(target, 0 ms, done)` — also while the hardware fade
+it handed over is still running (observed as D31, outside the property); a cached brightness of 0 is falsy in Python and
+is recomputed.  The brightness itself is the same with and without the cache. -/
+def fdOf (s : BSt) (l : Nat) : Nat :=
+  if (s.cached l && decide ((s.fade l).tb ≠ 0)) = true then 0 else fadeAt (s.fade l) s.now s.maxFade
 
 /-- one iteration of `_schedule_updates`: due lights become dirty again -/
 def schedfire (s : BSt) : BSt :=
@@ -99,8 +107,8 @@ def compute (s0 : BSt) (l : Nat) : Option (BSt × CRes) :=
   | x :: rest =>
     if x ≠ l then none else
     let (b, done) := brightnessAt (s.fade l) s.now s.maxFade
-    let fd := fadeAt (s.fade l) s.now s.maxFade
-    let s1 := { s with pending := rest }
+    let fd := fdOf s l
+    let s1 := { s with pending := rest, cached := if done then upd s.cached l true else s.cached }
     let q : BSt := { s1 with last := upd s.last l (some (b, s.now + fd)), acc := s.acc ++ [(l, b)],
                              accFade := if s.acc = [] then fd else s.accFade,
                              roundDone := s.roundDone ++ [(l, false)], roundComp := s.roundComp ++ [(l, fd)] }
